@@ -87,6 +87,7 @@ type FuncVC struct {
 	forallStack     []bool
 	closureDone     map[string]bool
 	loopRemap       map[int]int // code loop ordinal -> contract loop ordinal (retry after a shift)
+	inlineLoopHelpers bool // retry of a sweep function: contract-less helpers with loops are inlined (their loops cut without invariant)
 	helperLoops     map[string]int // "<callee key>#<loop ordinal>" -> contract loop ordinal of the function under verification (a loop extracted into an inlined helper)
 	nRetCover       int
 	pureEnsDepth    int
